@@ -338,8 +338,33 @@ def main_check(prop, tier):
         for it in g["items"]:
             it = dict(it)
             it["host"] = g["host"]
+            it["group"] = g["group"]
             it["name_h"] = it["name"] + (f"@{g['host']}" if len(hosts) > 1 else "")
             items.append(it)
+
+    # Bounded stand-ins for what the engine could not decide.  An UNDECIDED obligation (code
+    # outside the interpreted subset, budget exceeded) stays undecided -- but the suite's bounded
+    # program family for that group is run against the real converter, and a program on which
+    # the converted text misbehaves NATIVELY is a violation with a replayed input.  (Never the
+    # other way round: a quiet family decides nothing.  On a tree where everything is decided
+    # no stand-in runs.)
+    standins = getattr(mod, "STANDINS", None) or {}
+    ran = {}
+    for it in [i for i in items if i["status"] == UNDECIDED and i["host"] == host_tag()]:
+        specs = [sp for key, sps in standins.items() if key == "*" or key in it["group"] for sp in sps]
+        for sp in specs:
+            ck = json.dumps(sp, sort_keys=True, default=str)
+            if ck not in ran:
+                try:
+                    ran[ck] = mod.REPLAY[sp["kind"]](dict(sp))
+                except BaseException as e:  # noqa: BLE001
+                    ran[ck] = dict(reproduced=False, error="".join(traceback.format_exception_only(type(e), e)))
+            if ran[ck].get("reproduced") and not ran[ck].get("_reported"):
+                ran[ck]["_reported"] = True
+                items.append(dict(name=f"{it['name']}/bounded-stand-in:{sp['kind']}", name_h=f"{it['name']}/bounded-stand-in:{sp['kind']}", status=FAILED, backend="bounded",
+                                  detail=f"the engine could not decide this obligation ({it['detail'][:200]}); its bounded stand-in, the program family {sp['kind']!r} run "
+                                         "against the real converter, contains a program on which the converted text does not behave like the script",
+                                  replay=dict(sp), canary=False, host=it["host"], group=it["group"], count=0))
 
     errors = [i for i in items if i["status"] == ERROR]
     undec = [i for i in items if i["status"] == UNDECIDED]
